@@ -58,6 +58,14 @@ def rho_clean() -> Renaming:
 
 
 def rho_adversarial() -> Renaming:
-    # every name is a prefix, suffix or substring of another one
-    return Renaming(["a", "ab", "a_b", "aa", "a1", "b", "ba", "abc", "a_", "aab", "b_a", "bab", "a1a", "ab_", "aaa",
-                     "b1", "bb", "a_b_", "ab1", "aba"])
+    # a chain: every name is a string prefix (and substring) of every later one, so ANY two siblings of a world are
+    # prefix-related after renaming ("a.ab" / "a.ab_"), whatever the shape of the tree
+    chain = ["a", "ab", "ab_", "ab_c", "ab_c1", "ab_c1a", "ab_c1ab", "ab_c1ab_", "ab_c1ab_x", "ab_c1ab_x2"]
+    chain += [chain[-1] + "y" * i for i in range(1, 30)]
+    return Renaming(chain)
+
+
+def rho_adversarial2() -> Renaming:
+    # substrings, suffixes and prefixes of one another, not a chain
+    return Renaming(["a", "xa", "a_b", "aa", "a1", "b", "ba", "abc", "a_", "aab", "b_a", "bab", "a1a", "ab_", "aaa",
+                     "b1", "bb", "a_b_", "ab1", "aba", "xab", "ab"])
